@@ -95,7 +95,7 @@ pub fn snapshot(rec: &mut Recorder, w: &mut World, c: &Cfg) -> String {
 }
 
 #[derive(Clone, Debug)]
-pub enum Step { M(MOp), Load, SetRm, Fault(&'static str, MOp), AutoSave(bool), Save }
+pub enum Step { M(MOp), Load, SetRm, KeepRm, SetRmKept, Fault(&'static str, MOp), AutoSave(bool), Save }
 
 fn gen_step(rng: &mut Rng, c: &Cfg) -> Step {
     let (gk, gu) = rng.pick(&c.g_rules).clone();
@@ -118,9 +118,13 @@ fn gen_step(rng: &mut Rng, c: &Cfg) -> Step {
             _ => MOp::Clear,
         }
     };
-    match rng.below(20) {
+    match rng.below(22) {
         0 => Step::Load,
         1 => Step::SetRm,
+        // keep a handle on the manager in use now; later hand that very manager back (by then it may hold links the stored
+        // rules no longer imply)
+        20 => Step::KeepRm,
+        21 => Step::SetRmKept,
         2 => Step::Fault(*rng.pick(&["err", "refuse"]), mop(rng)),
         3 => Step::AutoSave(rng.chance(1, 2)),
         4 => Step::Save,
@@ -146,6 +150,8 @@ pub fn run(rec: &mut Recorder, w: &mut World, tier: &str, seed: u64) {
                     Step::M(op) => { rec.count(&format!("op:{}", op.kind())); rec.exec(w, &op.line()); op.line() }
                     Step::Load => { rec.count("op:load_policy"); rec.exec(w, "e.load"); s("e.load") }
                     Step::SetRm => { rec.count("op:set_role_manager"); rec.exec(w, "e.setrm"); s("e.setrm") }
+                    Step::KeepRm => { rec.exec(w, "e.keeprm"); s("e.keeprm") }
+                    Step::SetRmKept => { rec.count("op:set_role_manager(kept)"); rec.exec(w, "e.setrm\tkept"); s("e.setrm kept") }
                     Step::Fault(f, op) => { rec.count("op:rejected-call"); rec.exec(w, &format!("e.fault\t{}", fault_plan(op, f))); rec.exec(w, &op.line()); rec.exec(w, "e.fault\t-"); format!("fault {} {}", f, op.line()) }
                     Step::AutoSave(v) => { rec.exec(w, &format!("e.auto\tsave\t{}", v)); format!("autosave {}", v) }
                     Step::Save => { rec.count("op:save_policy"); rec.exec(w, "e.save"); s("e.save") }
